@@ -100,6 +100,15 @@ def run(ctx: Ctx, tier: str) -> Result:
     pops = [c for c in t.calls_in(si) if isinstance(c.func, ast.Attribute) and c.func.attr == "popitem"]
     drops = [n for n in t.nodes_in(si, ast.AugAssign) if norm(n.target) == "self.dropped"]
     need(len(stores) == 1, "__setitem__: expected exactly one store into the backing dict")
+    # the fullness / membership tests that decide the eviction must be made under the same lock as the insert
+    reads = [n for n in t.nodes_in(si, ast.Attribute) if norm(n) == "self._dict" and isinstance(n.ctx, ast.Load)]
+    unlocked = [n for n in reads if not any(isinstance(a, ast.With) and any("_lock" in norm(i.context_expr) for i in a.items) for a in p.ancestors(n, stop=si.node))]
+    if reads and not unlocked:
+        res.ok("C18.CAP", {"capacity decision and insert in one critical section": len(reads)})
+    for n in unlocked[:2]:
+        st_ = paths.stmt_of(p, n)
+        res.fail(Finding("C18.CAP", si.qname, st_, si.loc(st_), "the container is inspected outside `with self._lock` to decide the eviction: two threads inserting new keys at capacity-1 both "
+                         "see `not full` and the container exceeds its capacity without counting a drop"))
     # capacity 0
     zero = [d for d in drops if any(pol and "max_length == 0" in norm(c) for c, pol in paths.conditions(p, d, si))]
     okz = False
